@@ -960,6 +960,12 @@ example : ∀ c ∈ (precompute j0).components, (1 ∈ c.nodes ↔ 2 ∈ c.nodes
   have h2 := c16_closed j0 j0_wf c hc ⟨0, 0, 2, .ps 0⟩ (by decide)
   simp only at h1 h2
   rw [← h1, ← h2]
+/-- the heaviest component of `j0` -/
+def c0 : Component Nat := (precompute j0).components[0]'(by decide)
+theorem c0_mem : c0 ∈ (precompute j0).components := List.getElem_mem _
+example : UConn j0 1 2 := c16_connected j0 j0_wf c0 c0_mem 1 (by decide) 2 (by decide)
+example : ¬ UConn j0 1 4 := fun h =>
+  absurd ((c16_components_are_wcc j0 j0_wf c0 c0_mem 1 (by decide) 4).mpr h) (by decide)
 -- c16_sources
 example : (precompute j0).components.map (·.sources) = [[0], [4], [6]] := by decide
 -- c16_edge_maps: both outputs of task 0 are inputs of task 1; output (0,0) has two consumers
@@ -975,5 +981,20 @@ example : j0.HasCommon 1 2 := ⟨3, 1, 1, ⟨3, ⟨⟨1, 0, 3, .ps 0⟩, by deci
 -- c16_fuel: doubling the fuel changes nothing
 example : decomposeF 14 j0.ids (edgeIP j0) (edgeOP j0) = decompose j0.ids (edgeIP j0) (edgeOP j0) :=
   (c16_fuel j0 j0_wf j0_dag 7).1
+
+
+/-! the hypotheses cannot be dropped -/
+
+/-- a 2-cycle: well-formed but not a DAG; no task is without inputs, `decompose` yields nothing -/
+def jCyc : Job Nat Nat :=
+  { tasks := [(0, [0]), (1, [0])], edges := [⟨0, 0, 1, .ps 0⟩, ⟨1, 0, 0, .ps 0⟩] }
+example : jCyc.WF := ⟨by decide, by decide, by decide, by decide⟩
+example : isDagB jCyc = false := by decide
+example : (precompute jCyc).components.length = 0 := by decide
+
+/-- two edges into the same input of task 2: `param_source` keeps the later one only -/
+def jDup : Job Nat Nat :=
+  { tasks := [(0, [0]), (1, [0]), (2, [0])], edges := [⟨0, 0, 2, .ps 0⟩, ⟨1, 0, 2, .ps 0⟩] }
+example : (precompute jDup).inputs 2 = [(1, 0)] := by decide
 
 end EkwVerif.Presched
